@@ -1257,8 +1257,11 @@ class WorkerPool:
 
         # Join restart thread
         if self._restart_handler_thread is not None and self._restart_handler_thread.is_alive():
-            self._worker_comms.signal_worker_restart_condition()
-            self._restart_handler_thread.join()
+            # The thread can be in between checking whether it has to stop and waiting for the condition, in which case
+            # it misses a notification. So we keep notifying until it's gone
+            while self._restart_handler_thread.is_alive():
+                self._worker_comms.signal_worker_restart_condition()
+                self._restart_handler_thread.join(timeout=0.01)
             self._restart_handler_thread = None
 
         # Join timeout handler thread
